@@ -171,7 +171,12 @@ class LeaderElection(Entity):
         leader = metadata.get("leader")
         term = metadata.get("term", 0)
 
-        if term >= self._current_term:
+        # A newer term always wins; within the current term only the leader already
+        # known for it (or the first one heard of) is accepted, so the reported
+        # leader never changes inside a term.
+        if term > self._current_term or (
+            term == self._current_term and self._current_leader in (None, leader)
+        ):
             self._current_leader = leader
             self._current_term = term
             self._last_leader_heartbeat = self.now.to_seconds()
